@@ -11,7 +11,8 @@ import json, os, re, subprocess, sys, time
 SEEDED = "/verif/seeded"
 tier = sys.argv[1] if len(sys.argv) > 1 and sys.argv[1] in ("quick", "thorough") else "quick"
 results_only = "--results-only" in sys.argv
-only = [a for a in sys.argv[1:] if a not in ("quick", "thorough", "--results-only")]
+main_only = "--main-only" in sys.argv   # every trial against the main build configuration alone (a faster regression pass)
+only = [a for a in sys.argv[1:] if a not in ("quick", "thorough", "--results-only", "--main-only")]
 
 def sh(cmd, **kw):
     return subprocess.run(cmd, shell=True, capture_output=True, text=True, **kw)
@@ -42,7 +43,10 @@ for name in sorted(os.listdir(SEEDED)):
               if expect_violation:
                   r = sh(f"/verif/check C10 {tier}", env=dict(env, C10_VARIANTS="main"), cwd="/verif")
                   stage = "main configuration only (it reported; the other configurations were not run)"
-              if not expect_violation or r.returncode != 1:
+              if main_only and not expect_violation:
+                  r = sh(f"/verif/check C10 {tier}", env=dict(env, C10_VARIANTS="main"), cwd="/verif")
+                  stage = "main configuration only (regression pass with --main-only)"
+              elif (not expect_violation or r.returncode != 1) and not (main_only and expect_violation):
                   r = sh(f"/verif/check C10 {tier}", env=env, cwd="/verif")
                   stage = "full"
               first = next((l for l in r.stdout.splitlines() if l.startswith("violation in run")), "")
